@@ -1005,6 +1005,12 @@ func builtAutoPassthroughFilterChains(push *model.PushContext, proxy *model.Prox
 		if service.MeshExternal {
 			continue
 		}
+		if service.Hostname.IsWildCarded() {
+			// The SNI of AUTO_PASSTHROUGH is the cluster name (outbound_.<port>_.<subset>_.<host>). For a wildcard
+			// host it would contain "*" in the middle, which no client sends and which Envoy refuses
+			// ("partial wildcards are not supported in server_names"), taking the whole listener down.
+			continue
+		}
 		for _, port := range service.Ports {
 			if port.Protocol == protocol.UDP {
 				continue
